@@ -92,6 +92,61 @@ func Format(name string, n int, u uint16, w uint64, b byte) string {
 	return fmt.Sprintf("%s-%d:%x/%X %04x|%08X 100%% %v %v %02x", name, n, u, u, u, w, name, n, b) + fmt.Sprintf("%x,%04x,%X", n, n, -n)
 }
 
+// ---- interface values: a concrete value stored in an interface variable, an opaque method behind an embedded field
+
+type Marsh interface {
+	Put(b *bytes.Buffer)
+	Raw() []byte
+}
+
+type blob []byte
+
+func (p blob) Put(b *bytes.Buffer) { b.Write(p) }
+func (p blob) Raw() []byte         { return p }
+
+// Put does not touch the buffer it is handed: the interface field hands it back unchanged
+type quiet struct{ N byte }
+
+func (q quiet) Put(b *bytes.Buffer) {}
+func (q quiet) Raw() []byte         { return []byte{q.N, q.N} }
+
+type Sink struct{ Base int }
+
+// opaque for the translator (targets.json): what it is handed is what the test observes
+func (s *Sink) Take(name string, m Marsh) int {
+	var b bytes.Buffer
+	m.Put(&b)
+	b.WriteByte(0xff)
+	return s.Base + 1000*len(name) + 10*b.Len() + len(m.Raw())
+}
+
+type Outer struct {
+	*Sink
+	tag string
+}
+
+// switch on a string with several constants per case; the interface parameter m reassigned to values of two
+// concrete types; `o.Sink.Take`: a method behind an embedded pointer field, as an external function
+func (o *Outer) Store(name string, m Marsh) int {
+	switch name {
+	case "a", "b", "c":
+		var b bytes.Buffer
+		m.Put(&b)
+		if b.Len() > 2 {
+			m = blob(append([]byte{}, b.Bytes()...))
+		}
+	case "q":
+		m = quiet{N: 7}
+	}
+	return o.Sink.Take(name, m)
+}
+
+// a concrete value handed to a function whose parameter has the interface type, and a declaration with initialiser
+func (o *Outer) StoreBlob(name string, p []byte) int {
+	var m Marsh = blob(p)
+	return o.Store(name, m) + o.Sink.Take(name, quiet{N: 1})
+}
+
 // ---- must be REJECTED ---------------------------------------------------------------------------
 
 // a plain io.Reader may deliver less than is there
@@ -141,4 +196,28 @@ func Skips(xs []byte) int {
 		i++
 	}
 	return s
+}
+
+// the receiver of Take is reached through an implicit path (o.Sink)
+func (o *Outer) Promoted(name string, m Marsh) int {
+	return o.Take(name, m)
+}
+
+type counter struct{ n int }
+
+func (c *counter) Put(b *bytes.Buffer) { c.n++; b.Write([]byte{byte(c.n)}) }
+func (c *counter) Raw() []byte         { return nil }
+
+// a pointer stored in the interface value: the object has state
+func (o *Outer) PtrBox(name string) int {
+	var m Marsh = &counter{}
+	return o.Sink.Take(name, m)
+}
+
+type Small interface{ Raw() []byte }
+
+// an interface value stored in a slot of a different interface type
+func Narrow(m Marsh) int {
+	var s Small = m
+	return len(s.Raw())
 }
